@@ -31,6 +31,8 @@ type c12cfg struct {
 	noQueryIssuer bool
 	// a client template that sets every setting the gateway must control to something else
 	hostileDefaults bool
+	// the gateway terminates TLS itself (the X-Forwarded-For header is honoured all the same)
+	tls bool
 }
 
 // tunnelReplay presents token and host on the websocket transport and returns
@@ -121,6 +123,7 @@ func streamC12(env *runEnv) {
 		{mode: "signed", hosts: []string{addrs[0], addrs[1]}, verify: true},
 		{mode: "signed", hosts: []string{addrs[0], addrs[1]}, verify: true, noQueryIssuer: true},
 		{mode: "unsigned", hosts: []string{"rdp-host.invalid:3389", addrs[1]}, verify: true},
+		{mode: "roundrobin", hosts: []string{addrs[0]}, verify: true, tls: true},
 		{mode: "roundrobin", hosts: []string{addrs[0]}, verify: true, hostileDefaults: true},
 		{mode: "unsigned", hosts: []string{addrs[0], addrs[1]}, split: true, verify: true, hostileDefaults: true},
 		{mode: "roundrobin", hosts: []string{addrs[1]}, template: "no-placeholder", verify: true},
@@ -136,7 +139,7 @@ func streamC12(env *runEnv) {
 	n := 0
 	for ci, cf := range cfgs {
 		dir := filepath.Join(env.workdir, fmt.Sprintf("c12-%d", ci))
-		gc := gwConfig{authSet: true, auth: []string{"openid"}, tlsDisable: true, hosts: cf.hosts, hostSelection: cf.mode,
+		gc := gwConfig{authSet: true, auth: []string{"openid"}, tlsDisable: !cf.tls, hosts: cf.hosts, hostSelection: cf.mode,
 			providerURL: idp.srv.URL, clientID: idp.clientID, paaSignKey: sp(c12SignKey), queryKey: c12QueryKey, queryIssuer: map[bool]string{false: "rdpgw-query", true: ""}[cf.noQueryIssuer],
 			splitDomain: cf.split, userTemplate: cf.template, noUsername: cf.noUsername, verifyIP: bp(cf.verify), gatewayAddr: "gw.example.test:%PORT%"}
 		if cf.hostileDefaults {
@@ -146,8 +149,12 @@ func streamC12(env *runEnv) {
 				"full address:s:evil.example:3389\r\ngatewayhostname:s:evil-gw.example\r\ngatewayaccesstoken:s:EVIL\r\n"+
 				"networkautodetect:i:0\r\naudiomode:i:2\r\n"), 0o600) // (user name and domain are set by the handler only when it has one)
 		}
+		if cf.tls {
+			mkdirAll(dir)
+			gc.certFile, gc.keyFile = selfSigned(dir)
+		}
 		yaml, ev := gc.render("file")
-		g, ok := startGateway(dir, yaml, ev, false)
+		g, ok := startGateway(dir, yaml, ev, cf.tls)
 		if !ok {
 			panic("C12: gateway did not start: " + g.logs())
 		}
